@@ -86,7 +86,7 @@ def run_shard(shard):
     acc = Acc()
     if "replay" in shard:
         c = shard["replay"]
-        texts, envname = [c["text"]], c["env"]
+        texts, envname = ([c["prev"]] if c.get("prev") is not None else []) + [c["text"]], c["env"]
     else:
         rnd = random.Random(f"{shard['seed']}:{shard.get('idx', 0)}")
         texts = (NONASCII + gen_xonsh.UNTERMINATED[:40] if shard.get("idx", 0) == 0 else []) + contents(rnd, shard["n"])
@@ -96,8 +96,13 @@ def run_shard(shard):
         acc.inconc("child interpreter failed: " + str(err), {"env": envname})
         return acc.dump()
     acc.seen("environments", (envname, res["env"]["preferred"], res["env"]["utf8_mode"]))
+    prev = None
     for t, c in zip(texts, res["cases"]):
         case = {"text": t, "env": envname}
+        if c.get("rewritten") is not None and c["rewritten"] != c["file"] and "timeout" not in (c["rewritten"][0], c["file"][0]):
+            acc.violation("same-path-rewritten-differs", {"text": t, "env": envname, "prev": prev}, {"fresh_path": _short(c["file"]), "rewritten_path": _short(c["rewritten"])})
+        acc.count("rewritten_path_parses", 1 if c.get("rewritten") is not None else 0)
+        prev = t
         acc.evals += 1
         if len(t) >= 2:
             acc.nontrivial(base.h64(envname, t))
